@@ -18,8 +18,10 @@ RULE = ('every context of EXH(k) (all boolean tables with rows*cols<=k; k=9 quic
 EXHAUSTIVE = {'quick': False, 'thorough': False}
 
 
-def observe(cx, seed):
-    ctx = util.make_context(cx)
+def observe(cx, seed, impl=None):
+    if isinstance(impl, Exception):
+        return Case(f'({cx.nG}%nat, [(0, 0, -999)])', cx.to_json(), False, [{'Context() raised': repr(impl)}], sig=cx.key())
+    ctx = impl if impl is not None else util.make_context(cx)
     concepts = list(ctx.lattice)
     n = len(concepts)
     r = random.Random(seed * 1000003 + hash(cx.key()) % 1000003)
@@ -55,7 +57,9 @@ def observe(cx, seed):
 
 
 def cases(tier, seed):
-    return [observe(cx, seed) for cx in util.contexts_for(tier, seed, rnd_quick=200, rnd_thorough=2000)]
+    ctxs = util.contexts_for(tier, seed, rnd_quick=200, rnd_thorough=2000)
+    impls = util.prebuild(ctxs)
+    return [observe(cx, seed, impl) for cx, impl in zip(ctxs, impls)]
 
 
 def case_from_replay(inp):
